@@ -56,7 +56,7 @@ pub const AGGREGATE: [&str; 6] = [
 pub fn incremental(definition: &str, query: &str, lines: &[&str]) -> Result<Vec<Option<Vec<String>>>, String> {
     let tables = tables(definition)?;
     let statement = parsing::parse(query).map_err(|e| format!("{}", e))?;
-    let mut engine = ExecutionEngine::new(&tables, &statement);
+    let mut engine = ExecutionEngine::with_executed_joined_table(&tables, &statement).map_err(|e| format!("{}", e))?;
     let mut shown = Vec::new();
     for line in lines {
         let output = engine.execute(line.to_string(), &ExecutionConfig::default()).map_err(|e| format!("error at line {:?}: {}", line, e))?;
